@@ -245,7 +245,22 @@ def run(P, R, tier, cfg):
                     at.append(A.norm_bool_named(sa.sym_rvalue(s2[4]), True))
         tumbling = [(a, v) for (a, v) in at if "window_start" in a or "window_end" in a]
         n_mem += 1
-        _half_open(R, "a", sa, tumbling, lambda x: x == "timestamp", lambda x: x == "window_start", lambda x: x == "window_end", "StreamAlphaNode::is_in_window tumbling arm")
+        # `(window_start..window_end).contains(&timestamp)`: a Range is half-open by construction
+        rc = None
+        for c_ in sa.calls():
+            if c_.bb in sa.normal_blocks() and c_.name.endswith("::contains") and len(c_.args) == 2:
+                rng_ = strip(sa.sym_operand(c_.args[0]))
+                if rng_[0] == "agg" and rng_[1] in ("adt:std::ops::Range", "adt:std::ops::RangeInclusive") and len(rng_[2]) == 2:
+                    rc = (rng_[1], _named(rng_[2][0]), _named(rng_[2][1]), _named(sa.sym_operand(c_.args[1])))
+        if not tumbling and rc is not None:
+            if rc[0].endswith("RangeInclusive"):
+                R.violate("a", "membership:StreamAlphaNode::is_in_window tumbling arm", "the tumbling arm tests the closed range `start..=end`: an event at the boundary belongs to two windows", sa)
+            elif rc[1] == "window_start" and rc[2] == "window_end" and rc[3] == "timestamp":
+                R.hold("a", "StreamAlphaNode::is_in_window tumbling arm: (window_start..window_end).contains(timestamp)", fn=sa)
+            else:
+                R.undecide("a", "membership:StreamAlphaNode::is_in_window tumbling arm", "range membership over `%s..%s` of `%s` not recognised" % rc[1:], sa)
+        else:
+            _half_open(R, "a", sa, tumbling, lambda x: x == "timestamp", lambda x: x == "window_start", lambda x: x == "window_end", "StreamAlphaNode::is_in_window tumbling arm")
         we = sa.local_by_name("window_end")
         if we and all(ir_fmt_named(sa.sym_local(l)) in ("AddWithOverflow(window_start, window_duration_ms).0", "Add(window_start, window_duration_ms)") for l in we):
             R.hold("a", "StreamAlphaNode: window_end = window_start + window_duration_ms", fn=sa)
